@@ -841,6 +841,12 @@ void bn_rec_glv(bn_t k0, bn_t k1, const bn_t k, const bn_t n, const bn_st *v1,
 
 	/* Constant-time, except for the first scalar copy. */
 
+	if (k->used > RLC_FP_DIGS) {
+		/* Only scalars up to the size of the group order can be decomposed. */
+		RLC_THROW(ERR_NO_VALID);
+		return;
+	}
+
 	/* b1 = (k * v10) >> (bits + 1). */
 	dv_copy(_k, k->dp, k->used);
 	dv_copy(_v, v1[0].dp, v1[0].used);
